@@ -296,6 +296,10 @@ func c10Replay(raw json.RawMessage) ([]string, string) {
 		json.Unmarshal(raw, &c)
 		return c10ConfusionExec(c)
 	}
+	var rt c10Rotate
+	if json.Unmarshal(raw, &rt) == nil && rt.Rotate {
+		return c10RotateExec(rt)
+	}
 	var sq c10Seq
 	if json.Unmarshal(raw, &sq) == nil && sq.Seq {
 		return c10SeqExec(sq)
@@ -306,6 +310,76 @@ func c10Replay(raw json.RawMessage) ([]string, string) {
 	}
 	k, d, _ := c10Exec(c)
 	return k, d
+}
+
+// ---- rotation: the trusted certificates are replaced on an instance that has already validated ----
+
+// c10Rotate: one instance validates a logout message signed by First under a store trusting
+// exactly First; the application then assigns a NEW store object trusting exactly the other key
+// (certificate rotation) and, for ClockToo, a new clock object; the instance is then given a
+// message signed by the old key (must be rejected) and one signed by the new key (must be
+// accepted and flagged).
+type c10Rotate struct {
+	Rotate   bool   `json:"rotation"`
+	Kind     string `json:"kind"`
+	First    string `json:"first_trusted"` // K1 | K2
+	Deflate  bool   `json:"deflate,omitempty"`
+	ClockToo bool   `json:"clock_object_replaced_too,omitempty"`
+}
+
+func c10RotateExec(c c10Rotate) (keys []string, detail string) {
+	other := map[string]string{"K1": "K2", "K2": "K1"}[c.First]
+	msg := func(key string) string {
+		l := idp.DefaultLogout(c.Kind)
+		l.ID = "_rot-" + key
+		l.Sign = idp.SignSpec{Key: key}
+		l.Layout.Deflate = c.Deflate
+		return idp.RenderLogout(l)
+	}
+	call := func(sp *saml2.SAMLServiceProvider, m string) (bool, bool, string) {
+		if c.Kind == "LogoutRequest" {
+			r, cr := validateLogoutRequest(sp, m)
+			return cr.Accepted(), r != nil && r.SignatureValidated, cr.Err.Text + cr.Panic
+		}
+		r, cr := validateLogoutResponse(sp, m)
+		return cr.Accepted(), r != nil && r.SignatureValidated, cr.Err.Text + cr.Panic
+	}
+	sp := world.SPConf{Store: []string{c.First}}.Build()
+	a0, f0, e0 := call(sp, msg(c.First))
+	next := world.SPConf{Store: []string{other}}.Build()
+	sp.IDPCertificateStore = next.IDPCertificateStore
+	if c.ClockToo {
+		sp.Clock = next.Clock
+	}
+	a1, f1, e1 := call(sp, msg(c.First))
+	a2, f2, e2 := call(sp, msg(other))
+	detail = fmt.Sprintf("%+v | trusting %s: %s-signed accepted=%v flag=%v err=%q | store replaced by one trusting only %s: %s-signed accepted=%v flag=%v err=%q; %s-signed accepted=%v flag=%v err=%q",
+		c, c.First, c.First, a0, f0, e0, other, c.First, a1, f1, e1, other, a2, f2, e2)
+	kp := "C10/certificate-store-replaced-on-a-used-instance/" + c.Kind + "/"
+	if !a0 || !f0 {
+		keys = append(keys, kp+"genuine-message-rejected-before-rotation")
+	}
+	if a1 {
+		keys = append(keys, kp+"message-signed-by-the-removed-certificate-accepted")
+	}
+	if !a2 || !f2 {
+		keys = append(keys, kp+"message-signed-by-the-new-certificate-rejected")
+	}
+	return keys, detail
+}
+
+func c10Rotations() []c10Rotate {
+	var out []c10Rotate
+	for _, kind := range []string{"LogoutRequest", "LogoutResponse"} {
+		for _, first := range []string{"K1", "K2"} {
+			for _, d := range []bool{false, true} {
+				for _, ck := range []bool{false, true} {
+					out = append(out, c10Rotate{Rotate: true, Kind: kind, First: first, Deflate: d, ClockToo: ck})
+				}
+			}
+		}
+	}
+	return out
 }
 
 // ---- sequences: a genuine message after a delivery whose decoding failed ----
@@ -577,7 +651,7 @@ func c10Cases() []c10Case {
 }
 
 func c10Run(r *mc.Run) {
-	r.Rule = "full product kind(2) x Version(3) x Destination(7: SLO URL, absent, empty, ACS URL, evil, the SLO URL in another letter case / with a trailing slash) x Issuer(5 incl. the issuer in another letter case / with a trailing slash) x Status(6 incl. nested second-level codes, LogoutResponse) x signing state(9: unsigned, K1, K2, untrusted, tampered, 4 wrapping/relocation shapes) x presentation(2) x signature checking(2) x IdP issuer configured(2), unsigned roots also with a self-asserted SignatureValidated attribute; kind-confusion matrix 3x3x2x2; 7 x 5 sequences (a delivery whose decoding fails, then a genuine signed message) through validators and pre-decoders, judged against outcomes taken at process start; ValidateDecoded* on hand-built structs (full field product); non-trivial = the message reached the field checks or the signature logic (all do); distinct = distinct case"
+	r.Rule = "full product kind(2) x Version(3) x Destination(7: SLO URL, absent, empty, ACS URL, evil, the SLO URL in another letter case / with a trailing slash) x Issuer(5 incl. the issuer in another letter case / with a trailing slash) x Status(6 incl. nested second-level codes, LogoutResponse) x signing state(9: unsigned, K1, K2, untrusted, tampered, 4 wrapping/relocation shapes) x presentation(2) x signature checking(2) x IdP issuer configured(2), unsigned roots also with a self-asserted SignatureValidated attribute; kind-confusion matrix 3x3x2x2; 7 x 5 sequences (a delivery whose decoding fails, then a genuine signed message) through validators and pre-decoders, judged against outcomes taken at process start; 16 rotations (a used instance is given a new certificate store object trusting the other key, with and without a new clock object: the old signer is refused, the new one honoured); ValidateDecoded* on hand-built structs (full field product); non-trivial = the message reached the field checks or the signature logic (all do); distinct = distinct case"
 	r.Assume("RSA unforgeable", "goxmldsig canonicalisers used by the harness signer")
 	// sequences: references first, while the process has decoded nothing else; the sequences
 	// themselves run at the very end, one after the other
@@ -598,6 +672,17 @@ func c10Run(r *mc.Run) {
 			}
 		}
 	}()
+	for _, rt := range c10Rotations() {
+		keys, detail := c10RotateExec(rt)
+		r.Eval(3)
+		r.State(1)
+		r.Transition(3)
+		r.Bucket("rotation")
+		r.Nontrivial(fmt.Sprintf("%+v", rt))
+		for _, k := range keys {
+			r.Violation(k, detail, rt)
+		}
+	}
 	cases := c10Cases()
 	n := len(cases)
 	r.Set("choice_vectors", n)
